@@ -56,6 +56,31 @@ fn registry() -> Vec<Check> {
             props: checks::c11::props,
         },
         Check {
+            id: "C14",
+            run: checks::c14::run,
+            props: checks::c14::props,
+        },
+        Check {
+            id: "C16",
+            run: checks::c16::run,
+            props: checks::c16::props,
+        },
+        Check {
+            id: "C17",
+            run: checks::c17::run,
+            props: checks::c17::props,
+        },
+        Check {
+            id: "C19",
+            run: checks::c19::run,
+            props: checks::c19::props,
+        },
+        Check {
+            id: "C20",
+            run: checks::c20::run,
+            props: checks::c20::props,
+        },
+        Check {
         id: "C18",
         run: checks::c18::run,
         props: checks::c18::props,
